@@ -22,6 +22,8 @@ import (
 	"context"
 	"encoding/json"
 	"errors"
+	"hash/fnv"
+	"sync"
 	"time"
 
 	"github.com/bradfitz/gomemcache/memcache"
@@ -107,6 +109,10 @@ func (s SessionStoreImpl[T]) Put(key string, value interface{}, options ...Sessi
 	return s.underlying.Set(context.Background(), s.db.getFullKey(s.prefixes, key), T(bytes), store.WithExpiration(opts.ttl))
 }
 func (s SessionStoreImpl[T]) GetAndDelete(key string, target interface{}) error {
+	// the underlying stores offer no atomic get-and-delete: serialize per key, so an entry is handed out only once
+	lock := sessionKeyLock(key)
+	lock.Lock()
+	defer lock.Unlock()
 	if err := s.Get(key, target); err != nil {
 		return err
 	}
@@ -118,4 +124,28 @@ func (s SessionStoreImpl[T]) defaultOptions() sessionOptions {
 	return sessionOptions{
 		ttl: s.ttl,
 	}
+}
+
+// sessionKeyLocks makes read-modify-write sequences on a session key (GetAndDelete, PutIfAbsent) atomic within this process.
+var sessionKeyLocks [64]sync.Mutex
+
+func sessionKeyLock(key string) *sync.Mutex {
+	h := fnv.New32a()
+	_, _ = h.Write([]byte(key))
+	return &sessionKeyLocks[h.Sum32()%uint32(len(sessionKeyLocks))]
+}
+
+// PutIfAbsent stores the value under the given key unless the key already exists, and returns whether it was stored.
+// Of concurrent calls for the same key (within this process) exactly one stores the value. Intended for use-once values like nonces.
+func PutIfAbsent(store SessionStore, key string, value interface{}, options ...SessionOption) (bool, error) {
+	lock := sessionKeyLock(key)
+	lock.Lock()
+	defer lock.Unlock()
+	if store.Exists(key) {
+		return false, nil
+	}
+	if err := store.Put(key, value, options...); err != nil {
+		return false, err
+	}
+	return true, nil
 }
